@@ -343,7 +343,14 @@ class Model:
 
 
 def check_dispatch(mon, prev, snap, tx):
-    """C10 (a) and (b): evaluated at every pop_next_job commit."""
+    """C10 (a) and (b): evaluated for every decision of pop_next_job.
+
+    The definitions are evaluated on the tables as they were at the moment of the choice (a snapshot
+    taken inside the transaction, right after `Scheduler._get_next_step` returned), because the same
+    transaction may go on to change the graph as a consequence of the choice (the new state, the
+    steps that a step about to run created earlier).  The snapshot of the commit tells which step
+    really left PENDING."""
+    decision, mon.decision = getattr(mon, "decision", None), None
     if snap is None or not tx.is_pop:
         return
     mon.count("dispatch_decisions")
@@ -353,21 +360,31 @@ def check_dispatch(mon, prev, snap, tx):
             old = prev["step"].get(i)
             if old is not None and old["state"] == P and st["state"] in (R, C):
                 dispatched[i] = st["state"]
-    model = Model(snap, override_state={i: P for i in dispatched})
+    if decision is not None:
+        dsnap, chosen = decision
+        mon.count("decisions_seen_at_the_choice")
+        model = Model(dsnap)
+        want = {} if chosen is None else {chosen[0]: chosen[1]}
+        if prev is not None and want != dispatched:
+            mon.finding("the step that left PENDING is not the one that was chosen",
+                        f"chosen {[label(dsnap, i) for i in want]} dispatched {[label(snap, i) for i in dispatched]}")
+    else:
+        dsnap = snap
+        model = Model(snap, override_state={i: P for i in dispatched})
     flags_before = None
     if prev is not None:
         flags_before = tuple(
             min(2, sum(1 for st in prev["step"].values() if st[col]))
             for col in ("_check_safe", "_check_after", "_check_ready"))
-    decision = "none" if not dispatched else ("check" if C in dispatched.values() else "run")
-    mon.decision_classes.add((flags_before, decision))
+    kind = "none" if not dispatched else ("check" if C in dispatched.values() else "run")
+    mon.decision_classes.add((flags_before, kind))
     for i, new_state in dispatched.items():
         mon.count("dispatches")
-        if not model.eligible(i):
+        if i not in model.steps or not model.eligible(i):
             mon.finding("dispatch of a step that is not eligible by the definitions",
-                        f"{label(snap, i)} -> {STATE_NAME[new_state]}: {model.why_not(i)}",
+                        f"{label(snap, i)} -> {STATE_NAME[new_state]}: {model.why_not(i) if i in model.steps else 'unknown step'}",
                         {"step": label(snap, i)})
-        has_hash = i in snap["step_hash"]
+        has_hash = i in dsnap["step_hash"]
         if has_hash != (new_state == C):
             mon.finding("dispatch kind does not match the stored hash",
                         f"{label(snap, i)} -> {STATE_NAME[new_state]} has_hash={has_hash}")
@@ -375,10 +392,11 @@ def check_dispatch(mon, prev, snap, tx):
         mon.finding("two steps dispatched in one decision", str([label(snap, i) for i in dispatched]))
     # (b) cached columns agree with their definitions; no flag left
     for i, st in model.steps.items():
-        raw = snap["step"][i]
-        if raw["_check_after"] or raw["_check_ready"] or (raw["_check_safe"] and i not in dispatched):
+        raw = dsnap["step"][i]
+        if raw["_check_after"] or raw["_check_ready"] or (
+                raw["_check_safe"] and (decision is not None or i not in dispatched)):
             mon.finding("recompute flag still set after a dispatch decision",
-                        f"{label(snap, i)} safe={raw['_check_safe']} after={raw['_check_after']} "
+                        f"{label(dsnap, i)} safe={raw['_check_safe']} after={raw['_check_after']} "
                         f"ready={raw['_check_ready']}")
         if not model.attached(i):
             continue
@@ -387,28 +405,33 @@ def check_dispatch(mon, prev, snap, tx):
         want_tail = model.tail(i)
         if raw["_implied_need"] != want_need or abs(raw["_tail_time"] - want_tail) > 1e-9 * max(1.0, want_tail):
             mech = "cached _implied_need/_tail_time differs from its definition"
-            if stale_after_dropped_dynamic(mon, prev, snap, i):
+            if stale_after_dropped_dynamic(mon, prev, dsnap, i):
                 mech = STALE_AFTER_MECH
             mon.finding(mech,
-                        f"{label(snap, i)}: cached need={raw['_implied_need']} tail={raw['_tail_time']} "
+                        f"{label(dsnap, i)}: cached need={raw['_implied_need']} tail={raw['_tail_time']} "
                         f"definition need={want_need} tail={want_tail} (transaction {tx.index})",
-                        {"step": label(snap, i)})
+                        {"step": label(dsnap, i)})
         if bool(raw["_safe"]) != model.safe(i) or bool(raw["_safe_ignoring_hold"]) != model.safe(i, True):
             chain = []
-            cur = snap["node"][i][2]
+            cur = dsnap["node"][i][2]
             while cur is not None and cur in model.steps and len(chain) < 6:
                 cs = model.steps[cur]
-                chain.append((label(snap, cur)[:60], STATE_NAME[cs["state"]], cs["_holding"],
-                              cs["_safe"], cs["_check_safe"], snap["node"][cur][3]))
-                cur = snap["node"][cur][2]
+                chain.append((label(dsnap, cur)[:60], STATE_NAME[cs["state"]], cs["_holding"],
+                              cs["_safe"], cs["_check_safe"], dsnap["node"][cur][3]))
+                cur = dsnap["node"][cur][2]
             mon.finding("cached _safe differs from its definition",
-                        f"{label(snap, i)}: cached {raw['_safe']}/{raw['_safe_ignoring_hold']} "
+                        f"{label(dsnap, i)}: cached {raw['_safe']}/{raw['_safe_ignoring_hold']} "
                         f"definition {model.safe(i)}/{model.safe(i, True)} (transaction {tx.index}) "
                         f"state={STATE_NAME[raw['state']]} creator chain (label,state,holding,_safe,"
                         f"_check_safe,detached)={chain} dispatched={[label(snap, d)[:50] for d in dispatched]}")
         if bool(raw["_ready"]) != model.ready(i):
             mon.finding("cached _ready differs from its definition",
-                        f"{label(snap, i)}: cached {raw['_ready']} definition {model.ready(i)}")
+                        f"{label(dsnap, i)}: cached {raw['_ready']} definition {model.ready(i)}")
+    # (c) at the choice: nothing chosen although a step is eligible by the definitions
+    if decision is not None and not dispatched:
+        left = [label(dsnap, i) for i in model.steps if model.eligible(i)]
+        if left:
+            mon.finding("no step chosen although one is eligible by the definitions", str(left[:3]))
 
 
 def stale_after_dropped_dynamic(mon, prev, snap, step_i):
